@@ -399,6 +399,46 @@ pub fn ack_truthful(ex: &Execution, st: &mut AckStats) -> (Vec<String>, u64) {
                             .any(|(t, k, s1, s2)| *t != r.thread && *k == id && *s1 < e.seq && e.seq < *s2),
                         None => false,
                     }
+                } else if !ex.e2_events.is_empty() {
+                    // E2 with stamped map events: every event carries a stamp taken before and one
+                    // taken after the operation, so the real moment lies inside that window.  A
+                    // miss is explained iff its window overlaps a window in which another thread
+                    // had the order out of the map (from before its remove to after its re-insert).
+                    let mut holds: Vec<(usize, u64, u64)> = Vec::new();
+                    for (t, evs) in ex.e2_events.iter().enumerate() {
+                        let mut open: Option<u64> = None;
+                        let mut last_before: u64 = 0;
+                        for e in evs.iter().filter(|e| e.key == id) {
+                            if !e.after {
+                                last_before = e.seq;
+                                continue;
+                            }
+                            match e.op {
+                                Op::MapRemove if e.hit => open = Some(last_before),
+                                Op::MapInsert => {
+                                    if let Some(s0) = open.take() {
+                                        holds.push((t, s0, e.seq));
+                                    }
+                                }
+                                _ => {}
+                            }
+                        }
+                    }
+                    let mut misses: Vec<(u64, u64)> = Vec::new();
+                    if let Some(evs) = ex.e2_events.get(r.thread) {
+                        let mut last_before: u64 = 0;
+                        for e in evs.iter().filter(|e| e.key == id && e.seq >= r.call && e.seq <= r.ret) {
+                            if !e.after {
+                                last_before = e.seq;
+                            } else if !e.hit && matches!(e.op, Op::MapGet | Op::MapRemove) {
+                                misses.push((last_before, e.seq));
+                            }
+                        }
+                    }
+                    !misses.is_empty()
+                        && misses
+                            .iter()
+                            .all(|(m0, m1)| holds.iter().any(|(t, h0, h1)| *t != r.thread && h0 <= m1 && m0 <= h1))
                 } else {
                     // E2 (no event log): only a match, or an amend of the same order, issued by
                     // another thread can hold the order out of the map; if no such call overlaps
